@@ -27,19 +27,19 @@ type govcCodec struct {
 func govcCodecs() map[string]govcCodec {
 	mk := func(name string, f func(b []byte) (any, error)) govcCodec { return govcCodec{name, f} }
 	return map[string]govcCodec{
-		"clienteventmsgs": mk("ClientEventMsg", func(b []byte) (any, error) { var v ClientEventMsg; err := v.UnmarshalJSON(b); return v, err }),
-		"clientreqmsgs":   mk("ClientReqMsg", func(b []byte) (any, error) { var v ClientReqMsg; err := v.UnmarshalJSON(b); return v, err }),
-		"clientclosemsgs": mk("ClientCloseMsg", func(b []byte) (any, error) { var v ClientCloseMsg; err := v.UnmarshalJSON(b); return v, err }),
-		"clientauthmsgs":  mk("ClientAuthMsg", func(b []byte) (any, error) { var v ClientAuthMsg; err := v.UnmarshalJSON(b); return v, err }),
-		"clientcountmsgs": mk("ClientCountMsg", func(b []byte) (any, error) { var v ClientCountMsg; err := v.UnmarshalJSON(b); return v, err }),
-		"reqfilter":       mk("ReqFilter", func(b []byte) (any, error) { var v ReqFilter; err := v.UnmarshalJSON(b); return v, err }),
-		"events":          mk("Event", func(b []byte) (any, error) { var v Event; err := v.UnmarshalJSON(b); return v, err }),
-		"servereosemsgs":  mk("ServerEOSEMsg", func(b []byte) (any, error) { var v ServerEOSEMsg; err := v.UnmarshalJSON(b); return v, err }),
-		"servereventmsgs": mk("ServerEventMsg", func(b []byte) (any, error) { var v ServerEventMsg; err := v.UnmarshalJSON(b); return v, err }),
+		"clienteventmsgs":  mk("ClientEventMsg", func(b []byte) (any, error) { var v ClientEventMsg; err := v.UnmarshalJSON(b); return v, err }),
+		"clientreqmsgs":    mk("ClientReqMsg", func(b []byte) (any, error) { var v ClientReqMsg; err := v.UnmarshalJSON(b); return v, err }),
+		"clientclosemsgs":  mk("ClientCloseMsg", func(b []byte) (any, error) { var v ClientCloseMsg; err := v.UnmarshalJSON(b); return v, err }),
+		"clientauthmsgs":   mk("ClientAuthMsg", func(b []byte) (any, error) { var v ClientAuthMsg; err := v.UnmarshalJSON(b); return v, err }),
+		"clientcountmsgs":  mk("ClientCountMsg", func(b []byte) (any, error) { var v ClientCountMsg; err := v.UnmarshalJSON(b); return v, err }),
+		"reqfilter":        mk("ReqFilter", func(b []byte) (any, error) { var v ReqFilter; err := v.UnmarshalJSON(b); return v, err }),
+		"events":           mk("Event", func(b []byte) (any, error) { var v Event; err := v.UnmarshalJSON(b); return v, err }),
+		"servereosemsgs":   mk("ServerEOSEMsg", func(b []byte) (any, error) { var v ServerEOSEMsg; err := v.UnmarshalJSON(b); return v, err }),
+		"servereventmsgs":  mk("ServerEventMsg", func(b []byte) (any, error) { var v ServerEventMsg; err := v.UnmarshalJSON(b); return v, err }),
 		"servernoticemsgs": mk("ServerNoticeMsg", func(b []byte) (any, error) { var v ServerNoticeMsg; err := v.UnmarshalJSON(b); return v, err }),
-		"serverokmsgs":    mk("ServerOKMsg", func(b []byte) (any, error) { var v ServerOKMsg; err := v.UnmarshalJSON(b); return v, err }),
-		"serverauthmsgs":  mk("ServerAuthMsg", func(b []byte) (any, error) { var v ServerAuthMsg; err := v.UnmarshalJSON(b); return v, err }),
-		"servercountmsgs": mk("ServerCountMsg", func(b []byte) (any, error) { var v ServerCountMsg; err := v.UnmarshalJSON(b); return v, err }),
+		"serverokmsgs":     mk("ServerOKMsg", func(b []byte) (any, error) { var v ServerOKMsg; err := v.UnmarshalJSON(b); return v, err }),
+		"serverauthmsgs":   mk("ServerAuthMsg", func(b []byte) (any, error) { var v ServerAuthMsg; err := v.UnmarshalJSON(b); return v, err }),
+		"servercountmsgs":  mk("ServerCountMsg", func(b []byte) (any, error) { var v ServerCountMsg; err := v.UnmarshalJSON(b); return v, err }),
 		"serverclosedmsgs": mk("ServerClosedMsg", func(b []byte) (any, error) { var v ServerClosedMsg; err := v.UnmarshalJSON(b); return v, err }),
 	}
 }
